@@ -3,6 +3,7 @@
 # first pass in parallel (xdist) without test_ephys_np2.py (its tests share fixture folders); that file and anything
 # missing after the first pass run serially.
 TREE=${1:-/repo}
+export PYTHONPATH="$TREE/src"
 OUT=$(mktemp /tmp/baseline.XXXXXX.xml); OUT2=$(mktemp /tmp/baseline2.XXXXXX.xml)
 cd "$TREE" && env -u IBL_NEUROPIXEL_VERIF /venv/bin/python -m pytest -q -p no:cacheprovider --timeout=900 --continue-on-collection-errors -n 8 --ignore=src/tests/unit/test_ephys_np2.py --junitxml=$OUT >/dev/null 2>&1
 cat > /tmp/_bl_cmp.py <<'PY'
